@@ -49,13 +49,17 @@ func tvRule(rc *RuleCtx, prop string) {
 	}
 	programs, diffs := 0, 0
 	for _, p := range tvPairs {
-		isC14 := false
-		for _, q := range p.props {
-			if q == "C14" {
-				isC14 = true
+		props := p.props
+		if len(props) == 0 {
+			props = []string{"C13"}
+		}
+		serves := false
+		for _, q := range props {
+			if q == prop {
+				serves = true
 			}
 		}
-		if (prop == "C14") != isC14 {
+		if !serves {
 			continue
 		}
 		var oss []string
